@@ -56,6 +56,8 @@ CONSTANTS Cap,       \* MaxIterations
           AsFound_NoSweepAtBigTolerance,
           MaxRetries,   \* how often the caller calls SolveStep again for a period that raised (per run)
           CapBoost,     \* by how much the caller may raise MaxIterations before the retry
+          ZeroChoices,            \* is the requested tolerance exactly 0 (solver parameter or block line)?
+          ZeroToleranceFallsBack, \* FALSE = the code: a requested tolerance of 0 is used as such
           SweepAlphabet, DecoAlphabet, BigChoices,   \* the instance: outcomes / start tolerance classes explored
           LaggedRecordedAtSetup,  \* FALSE = the code: a period is recorded all-or-nothing, at its end
           Hyp_NoCap               \* FALSE = the code.  TRUE (hypothetical): the cap test is dropped - the loop goes on
@@ -71,6 +73,8 @@ Statuses == {"idle", "iterating", "exited", "appended", "decorating", "done"} \c
 (* outcome of one sweep *)
 SweepOutcomes == {"converge",    \* all changes small: error <= tolerance, no evaluation error
                   "notyet",      \* error > tolerance, no evaluation error
+                  "approx",      \* 0 < error <= the block's default tolerance: meets every tolerance > 0 in use,
+                                 \* does NOT meet a requested tolerance of exactly 0
                   "overflow",    \* an iterate becomes / stays inf: error measure NaN
                   "overflow_nan",\* an iterate becomes NaN (inf-inf under damping): error measure NaN
                   "everr_le",    \* ZeroDivisionError / ValueError caught, rest converged
@@ -94,12 +98,14 @@ Completed == IF AsFound_DecorativeAfterAppend THEN "decorating" ELSE "appended"
 InitState(h, big, cap) ==
                 [cap |-> cap, retries |-> 0, step |-> 0, sweep |-> 0, errc |-> "gt_tol", evalErr |-> FALSE, iter |-> "finite",
                  status |-> "idle", big |-> big,
+                 zero |-> FALSE,      \* the requested tolerance is exactly 0
+                 met |-> FALSE,       \* the error measure of the last sweep meets the REQUESTED tolerance
                  len |-> [c \in Classes |-> IF c = "exo" THEN h + 1 ELSE 1]]
 
 BeginStepEnabled(st, h) == st.status \in {"idle", Completed} /\ st.step < h
 \* relative_error = 1.: above a tolerance < 1, within a tolerance >= 1
 BeginStepOp(st) == [st EXCEPT !.step = @ + 1, !.sweep = 0,
-                              !.errc = IF st.big THEN "le_tol" ELSE "gt_tol", !.evalErr = FALSE,
+                              !.errc = IF st.big THEN "le_tol" ELSE "gt_tol", !.met = st.big, !.evalErr = FALSE,
                               !.iter = "finite", !.status = "iterating",
                               !.len = IF LaggedRecordedAtSetup
                                       THEN [c \in Classes |-> IF c = "lag" THEN @[c] + 1 ELSE @[c]] ELSE @]
@@ -107,7 +113,7 @@ BeginStepOp(st) == [st EXCEPT !.step = @ + 1, !.sweep = 0,
 (* the caller calls SolveStep for the same period again, after changing MaxIterations / the tolerance *)
 RetryEnabled(st, maxr) == st.status \in Raised /\ st.retries < maxr
 RetryOp(st, newcap, newbig) ==
-    [st EXCEPT !.sweep = 0, !.errc = IF newbig THEN "le_tol" ELSE "gt_tol", !.evalErr = FALSE,
+    [st EXCEPT !.sweep = 0, !.errc = IF newbig THEN "le_tol" ELSE "gt_tol", !.met = newbig, !.evalErr = FALSE,
                !.iter = "finite", !.status = "iterating", !.cap = newcap, !.big = newbig,
                !.retries = @ + 1,
                !.len = IF LaggedRecordedAtSetup
@@ -123,8 +129,12 @@ SweepOp(st, o) ==
     ELSE [st EXCEPT !.sweep = IF Hyp_NoCap /\ @ > st.cap THEN @ ELSE @ + 1,    \* (the hypothetical counter saturates)
                     !.evalErr = (o \in {"everr_le", "everr_gt"}),
                     !.iter = CASE o = "overflow" -> "inf" [] o = "overflow_nan" -> "nan" [] OTHER -> "finite",
+                    !.met = (o \in {"converge", "everr_le"}) \/ (o = "approx" /\ ~st.zero),
+                    \* the tolerance the loop tests against: the requested one; with ZeroToleranceFallsBack a
+                    \* requested 0 is silently replaced by the block's default
                     !.errc = CASE o \in {"converge", "everr_le"} -> "le_tol"
                                [] o \in {"notyet", "everr_gt"} -> "gt_tol"
+                               [] o = "approx" -> IF st.zero /\ ~ZeroToleranceFallsBack THEN "gt_tol" ELSE "le_tol"
                                [] OTHER -> "nan"]
 
 (* m sweeps of outcome "notyet" in one go (used by the trace specification) *)
@@ -169,27 +179,29 @@ FinishOp(st) == [st EXCEPT !.status = "done"]
 (* ---------------------------------------------------------------------------------- *)
 VARIABLES step, sweep, errc, evalErr, iter, status, len,
           big,      \* the tolerance in force is >= 1
+          zero, met,  \* the requested tolerance is exactly 0; the last sweep met the requested tolerance
           cap,      \* MaxIterations in force
           retries,  \* retries made in this run
           hist      \* history: one record per period (what the replay driver realises)
 
-vars == << step, sweep, errc, evalErr, iter, status, len, big, cap, retries, hist >>
+vars == << step, sweep, errc, evalErr, iter, status, len, big, zero, met, cap, retries, hist >>
 
 St == [step |-> step, sweep |-> sweep, errc |-> errc, evalErr |-> evalErr, iter |-> iter,
-       status |-> status, len |-> len, big |-> big, cap |-> cap, retries |-> retries]
+       status |-> status, len |-> len, big |-> big, zero |-> zero, met |-> met, cap |-> cap, retries |-> retries]
 
 Set(st) == /\ step' = st.step /\ sweep' = st.sweep /\ errc' = st.errc /\ evalErr' = st.evalErr
-           /\ iter' = st.iter /\ status' = st.status /\ len' = st.len /\ big' = st.big
+           /\ iter' = st.iter /\ status' = st.status /\ len' = st.len /\ big' = st.big /\ zero' = st.zero /\ met' = st.met
            /\ cap' = st.cap /\ retries' = st.retries
 
 (* one record per ATTEMPT: period k, with the cap and tolerance class in force *)
-NewAttempt(k, c, b) == [k |-> k, cap |-> c, big |-> b, n |-> 0, tr |-> FALSE, last |-> "none", exit |-> "none",
+NewAttempt(k, c, b) == [k |-> k, cap |-> c, big |-> b, zero |-> zero, n |-> 0, tr |-> FALSE, last |-> "none", exit |-> "none",
                         deco |-> "none"]
 Cur == Len(hist)
 
-Init == \E b \in BigChoices :
+Init == \E b \in BigChoices, z \in ZeroChoices :
         LET s0 == InitState(Horizon, b, Cap)
-        IN /\ big = b /\ cap = Cap /\ retries = 0
+        IN /\ ~(b /\ z) /\ zero = z /\ met = FALSE
+           /\ big = b /\ cap = Cap /\ retries = 0
            /\ step = s0.step /\ sweep = s0.sweep /\ errc = s0.errc /\ evalErr = s0.evalErr
            /\ iter = s0.iter /\ status = s0.status /\ len = s0.len /\ hist = << >>
 
@@ -248,7 +260,7 @@ C11_Terminates == <>[]RunOver
 
 (* ---------------------------------------------------------------------------------- *)
 TypeOK == /\ big \in BOOLEAN /\ SweepAlphabet \subseteq SweepOutcomes /\ DecoAlphabet \subseteq DecoOutcomes
-          /\ BigChoices \subseteq BOOLEAN
+          /\ BigChoices \subseteq BOOLEAN /\ ZeroChoices \subseteq BOOLEAN /\ zero \in BOOLEAN /\ met \in BOOLEAN
           /\ step \in 0..Horizon /\ sweep \in 0..(Cap + MaxRetries * CapBoost + 1)
           /\ cap \in Cap..(Cap + MaxRetries * CapBoost) /\ retries \in 0..MaxRetries
           /\ errc \in ErrClasses /\ iter \in IterClasses /\ evalErr \in BOOLEAN
@@ -269,6 +281,10 @@ C02_SolvedOnlyAfterSweep ==
 (* nothing of it is in the series, so solving it again starts from the same series            *)
 C02_PeriodAllOrNothing ==
     status \in {"iterating", "exited"} \cup Raised => \A c \in NonExo : len[c] = step
+
+(* C11: a period is reported as solved only if the error measure met the tolerance that was REQUESTED *)
+C11_SolvedOnlyAtRequestedTolerance ==
+    status \in {"exited", "appended", "decorating"} /\ sweep >= 1 => met
 
 (* C11 *)
 C11_BoundedSweeps == sweep <= cap + 1
